@@ -228,6 +228,8 @@ pub enum Profile {
     Reopen,   // C04: reopen at many positions
     Reloc,    // C08/C09: blob relocation: few keys, several live versions, files made partly stale
     All,
+    // NOTE: the case seed depends on the discriminant (`profile as u64`): new profiles go AFTER `All`
+    Lvl,      // C01c: Leveled-heavy: multi-table runs in the deep levels, target sizes around the table sizes (50x cap, window choice)
 }
 impl Profile {
     pub fn parse(s: &str) -> Profile {
@@ -242,6 +244,7 @@ impl Profile {
             "fifo" => Profile::Fifo,
             "reopen" => Profile::Reopen,
             "reloc" => Profile::Reloc,
+            "lvl" => Profile::Lvl,
             _ => Profile::All,
         }
     }
@@ -304,6 +307,15 @@ pub fn gen_case(rng: &mut Rng, profile: Profile, blob: bool, max_ops: u64) -> Ca
                 }
                 870..=939 => Op::Leveled(1, *rng.pick(&[1u64, 64]), Wm::Zero),
                 940..=964 => Op::SnapOpen,
+                _ => Op::Reopen,
+            },
+            Profile::Lvl => match r {
+                0..=379 => Op::Insert(k, *rng.pick(&[0usize, 0, 6, 40])),
+                380..=419 => Op::Remove(k),
+                420..=579 => Op::Flush(gen_wm(rng)),
+                580..=899 => Op::Leveled(*rng.pick(&[1u8, 1, 2, 4]), *rng.pick(&[1u64, 2, 3, 4, 6, 8, 16, 64, 4096]), gen_wm(rng)),
+                900..=949 => Op::Major(*rng.pick(&[1u64, 1, 150, 300]), gen_wm(rng)),
+                950..=969 => Op::MoveDown(rng.below(6) as u8, 6),
                 _ => Op::Reopen,
             },
             Profile::Fifo => match r {
@@ -735,6 +747,28 @@ fn check_at(c: &Ctx, s: SeqNo, held: bool, tag: &str, fails: &mut Vec<String>) {
             fails.push(format!("C03 after `{tag}` S={s}: scan not strictly ascending at {}", hex(&w[1].0)));
         }
     }
+    // the other scan entry points: `iter` and `prefix` (own code paths in Tree / BlobTree), both directions
+    {
+        let it: Vec<(K, Vec<u8>)> = c.tree.iter(s, None).map(kv_of).collect();
+        if it != fwd {
+            fails.push(format!("{pid_scan} after `{tag}` S={s}: iter() differs from range(..)"));
+        }
+        let mut prefixes: BTreeSet<K> = BTreeSet::new();
+        prefixes.insert(vec![]);
+        for k in c.keys.iter().take(6) {
+            prefixes.insert(k[..1.min(k.len())].to_vec());
+            prefixes.insert(k[..2.min(k.len())].to_vec());
+        }
+        for p in prefixes.iter().take(8) {
+            let want: Vec<(K, Vec<u8>)> = fwd.iter().filter(|(k, _)| k.starts_with(p)).cloned().collect();
+            let got: Vec<(K, Vec<u8>)> = c.tree.prefix(p, s, None).map(kv_of).collect();
+            let mut got_rev: Vec<(K, Vec<u8>)> = c.tree.prefix(p, s, None).rev().map(kv_of).collect();
+            got_rev.reverse();
+            if got != want || got_rev != want {
+                fails.push(format!("{pid_scan} after `{tag}` S={s}: prefix({}) yields {} / {} (reverse) items, the full scan has {} with that prefix{}", hex(p), got.len(), got_rev.len(), want.len(), if got.len() == want.len() { " (values differ)" } else { "" }));
+            }
+        }
+    }
     let scm: BTreeMap<K, Vec<u8>> = fwd.into_iter().collect();
     let mut live = 0usize;
     for k in &c.keys {
@@ -1011,7 +1045,7 @@ pub fn run_case(case: &Case, runner: &mut Runner) -> Outcome {
         Ok(o) => o,
         Err(e) => {
             let msg = e.downcast_ref::<String>().cloned().or_else(|| e.downcast_ref::<&str>().map(|s| s.to_string())).unwrap_or_default();
-            Outcome { disagreement: None, oracle_failures: vec![format!("C06 panic while executing the case: {msg}")], steps: 0, counters: BTreeMap::new(), nontrivial: false }
+            Outcome { disagreement: None, oracle_failures: vec![format!("PANIC while executing the case (a sequential history on the real tree must never panic): {msg}")], steps: 0, counters: BTreeMap::new(), nontrivial: false }
         }
     }
 }
@@ -1412,11 +1446,154 @@ fn open_placeholder() -> AnyTree {
     t
 }
 
+
+/// What `leveled::Strategy::choose` really returned, together with the per-table facts of the version it was
+/// called on (recorded by `RecLeveled`).
+struct LeveledObs {
+    /// "nothing" | "move=<ids> dest=<d>" | "merge=<ids> dest=<d>" | "drop=<ids>" (the driver's `showChoice` format)
+    choice: String,
+    kind: &'static str,
+    /// lowest level holding a chosen table
+    src_level: Option<usize>,
+    /// (table id, `file_size`) of every table of the version
+    sizes: Vec<(u64, u64)>,
+    /// chosen tables in the source level / in the other levels, and the table counts of source and next level
+    shape: (usize, usize, usize, usize),
+}
+
+/// `Leveled` wrapped so that the harness sees the REAL `Choice` of the very call the compaction worker makes.
+struct RecLeveled {
+    inner: lsm_tree::compaction::Leveled,
+    rec: Arc<Mutex<Option<LeveledObs>>>,
+}
+
+impl va::CompactionStrategy for RecLeveled {
+    fn get_name(&self) -> &'static str {
+        self.inner.get_name()
+    }
+    fn get_config(&self) -> Vec<lsm_tree::KvPair> {
+        self.inner.get_config()
+    }
+    fn choose(&self, version: &va::Version, config: &Config, state: &va::CompactionState) -> va::Choice {
+        let c = self.inner.choose(version, config, state);
+        let levels: Vec<Vec<u64>> = version.iter_levels().map(|l| l.iter().flat_map(|r| r.iter()).map(|t| t.id()).collect()).collect();
+        let sizes: Vec<(u64, u64)> = version.iter_levels().flat_map(|l| l.iter()).flat_map(|r| r.iter()).map(|t| (t.id(), t.metadata.file_size)).collect();
+        let mut shape = (0, 0, 0, 0);
+        let mut describe = |kind: &'static str, mut v: Vec<u64>, dest: Option<u8>| {
+            v.sort_unstable();
+            let src = v.iter().filter_map(|i| levels.iter().position(|l| l.contains(i))).min();
+            let n_src = src.map_or(0, |l| v.iter().filter(|i| levels[l].contains(i)).count());
+            shape = (n_src, v.len() - n_src, src.map_or(0, |l| levels[l].len()), src.and_then(|l| levels.get(l + 1)).map_or(0, Vec::len));
+            let text = match dest {
+                Some(d) => format!("{kind}={} dest={d}", show_ids(&v)),
+                None => format!("{kind}={}", show_ids(&v)),
+            };
+            (text, kind, src)
+        };
+        let (choice, kind, src_level) = match &c {
+            va::Choice::DoNothing => ("nothing".to_string(), "nothing", None),
+            va::Choice::Move(i) => describe("move", i.table_ids.iter().copied().collect(), Some(i.dest_level)),
+            va::Choice::Merge(i) => describe("merge", i.table_ids.iter().copied().collect(), Some(i.dest_level)),
+            va::Choice::Drop(ids) => describe("drop", ids.iter().copied().collect(), None),
+        };
+        *self.rec.lock().unwrap() = Some(LeveledObs { choice, kind, src_level, sizes, shape });
+        c
+    }
+}
+
+/// Leveled: the model (`leveledChooseAt`, Tree/Leveled.lean) must reproduce the real choice EXACTLY (same ids, same
+/// destination, same Move / Merge / DoNothing). The two float-dependent decisions are inferred from the real choice:
+/// `scored` = the lowest level holding a chosen table (`-` for DoNothing), `neednew` = whichever value reproduces it.
+fn leveled_compare(obs: &LeveledObs, l0: u8, ts: u64, hidden: &[u64], observed: &str, runner: &mut Runner, tag: &str, out: &mut Outcome) -> Result<(), String> {
+    let bump = |out: &mut Outcome, k: &str| *out.counters.entry(k.to_string()).or_default() += 1;
+    if runner.drv.is_none() {
+        return Ok(());
+    }
+    let scored = obs.src_level.map_or("-".to_string(), |l| l.to_string());
+    let sizes = obs.sizes.iter().map(|(i, b)| format!("{i}:{b}")).collect::<Vec<_>>().join(",");
+    let base = format!("choose strat=leveled l0={l0} target={ts} hidden={} sizes={sizes}", show_ids(hidden));
+    let mut replies = Vec::new();
+    for nn in [0, 1] {
+        replies.push(runner.ask(&format!("{base} neednew={nn} scored={scored}")).unwrap_or_default());
+    }
+    let m0 = replies[0] == obs.choice;
+    let m1 = replies[1] == obs.choice;
+    if !m0 && !m1 {
+        return Err(format!(
+            "`{tag}`: Leveled choice differs: real `{}`, model `{}` (neednew=0) / `{}` (neednew=1) for `{base} scored={scored}`",
+            obs.choice, replies[0], replies[1]
+        ));
+    }
+    bump(out, "leveled.cmp.total");
+    bump(out, &format!("leveled.cmp.{}", obs.kind));
+    if let Some(l) = obs.src_level {
+        bump(out, &format!("leveled.cmp.{}.src{l}", obs.kind));
+        if l >= 1 {
+            // `pick_minimal_compaction`: chosen tables of the current run / of the next run, out of how many
+            let (a, b, na, nb) = obs.shape;
+            let cap = |n: usize| if n >= 3 { "3p".to_string() } else { n.to_string() };
+            bump(out, &format!("leveled.cmp.deep.{}.{}of{}+{}of{}", obs.kind, cap(a), cap(na), cap(b), cap(nb)));
+        }
+    }
+    bump(out, match (m0, m1) {
+        (true, true) => "leveled.cmp.neednew_either",
+        (true, false) => "leveled.cmp.neednew_0",
+        _ => "leveled.cmp.neednew_1",
+    });
+    // a move that does not depend on the scoring at all (trivial move into Lmax / into L1)?
+    if obs.kind == "move" && obs.src_level == Some(0) {
+        if runner.ask(&format!("{base} neednew={} scored=-", if m0 { 0 } else { 1 })).as_deref() == Some(obs.choice.as_str()) {
+            bump(out, "leveled.cmp.move.before_scoring");
+        }
+    }
+    // cross-check (NOT a disagreement): exact-rational scoring for the default ratio policy instead of inference
+    if let Some(p) = runner.ask(&format!("{base} scored=auto")) {
+        let predicted = p.split(" pick=").next().unwrap_or("");
+        if predicted == obs.choice {
+            bump(out, "leveled.auto.agree");
+            bump(out, &format!("leveled.auto.agree.{}", obs.kind));
+        } else {
+            bump(out, "leveled.auto.differ");
+            if std::env::var("LSMVERIF_LEVELED_DEBUG").is_ok() {
+                eprintln!("leveled auto differs `{tag}`: real `{}` auto `{p}` for `{base}`", obs.choice);
+            }
+            // The harness only uses the default ratio policy with power-of-two thresholds / target sizes and small
+            // files, where the f32 / f64 arithmetic of the real scoring is exact. No property constrains WHICH admissible
+            // compaction Leveled picks, so a difference in the (float) scoring is only counted (`leveled.auto.differ`);
+            // `LSMVERIF_LEVELED_AUTO=hard` turns it into a disagreement.
+            if std::env::var("LSMVERIF_LEVELED_AUTO").as_deref() == Ok("hard") {
+                return Err(format!(
+                    "`{tag}`: Leveled choice differs from the model with exact-rational scoring: real `{}`, model `{p}` for `{base} scored=auto`",
+                    obs.choice
+                ));
+            }
+        }
+    }
+    // the effect seen on the version history must be the effect of that choice
+    let consistent = match obs.kind {
+        "nothing" => observed == "nothing",
+        "move" => observed == obs.choice,
+        "merge" => observed == obs.choice || observed.starts_with("changed-without-new-tables") || (observed == "nothing" && obs.choice.starts_with("merge= ")),
+        _ => false,
+    };
+    if consistent {
+        bump(out, "leveled.effect.consistent");
+    } else {
+        bump(out, "leveled.effect.differs");
+        if std::env::var("LSMVERIF_LEVELED_DEBUG").is_ok() {
+            eprintln!("leveled effect differs `{tag}`: choice `{}` observed `{observed}`", obs.choice);
+        }
+    }
+    Ok(())
+}
+
 fn exec_compaction(c: &mut Ctx, op: &Op, runner: &mut Runner, tag: &str, out: &mut Outcome) -> Result<(), String> {
     let bump = |out: &mut Outcome, k: &str| *out.counters.entry(k.to_string()).or_default() += 1;
     let (vid_before, before) = levels_of(c);
     let hidden = va::hidden_table_ids(index_tree(&c.tree));
     let filter_arg = c.cfg.filter_seed.map_or("none".to_string(), |s| format!("{s} once={}", c.once_keys.iter().map(|k| hex(k)).collect::<Vec<_>>().join(",")));
+    // Leveled: the real `Choice` as returned by `choose` (recorded by the wrapper strategy)
+    let mut leveled_obs: Option<(LeveledObs, u8, u64)> = None;
     // run the real operation
     let (wm, strat_req): (SeqNo, Option<String>) = match op {
         Op::Leveled(l0, ts, w) => {
@@ -1425,8 +1602,11 @@ fn exec_compaction(c: &mut Ctx, op: &Op, runner: &mut Runner, tag: &str, out: &m
                 return Ok(());
             }
             let wm = wm_value(*w, c);
-            c.tree.compact(Arc::new(lsm_tree::compaction::Leveled::default().with_l0_threshold(*l0).with_table_target_size(*ts)), wm).unwrap();
+            let rec = Arc::new(Mutex::new(None));
+            let strat = RecLeveled { inner: lsm_tree::compaction::Leveled::default().with_l0_threshold(*l0).with_table_target_size(*ts), rec: rec.clone() };
+            c.tree.compact(Arc::new(strat), wm).unwrap();
             bump(out, "op.leveled");
+            leveled_obs = rec.lock().unwrap().take().map(|o| (o, *l0, *ts));
             (wm, None)
         }
         Op::Major(ts, w) => {
@@ -1505,6 +1685,10 @@ fn exec_compaction(c: &mut Ctx, op: &Op, runner: &mut Runner, tag: &str, out: &m
         if let Some(p) = runner.ask(&format!("{req} hidden={}", show_ids(&hidden))) {
             predicted = Some(p);
         }
+    }
+    // Leveled: the model predicts the choice too, given the float-dependent decisions (asked on the BEFORE state)
+    if let Some((obs, l0, ts)) = &leveled_obs {
+        leveled_compare(obs, *l0, *ts, &hidden, &observed, runner, tag, out)?;
     }
     if runner.drv.is_none() {
         if vid_after != vid_before {
